@@ -30,6 +30,7 @@ static void acquired(int *flag) { if (holders != 0) err_excl = 1; holders++; *fl
 static void env_step(void)
 {
     int who = nondet_int();
+    vr_env_noblock = 1;   /* every environment operation of this scenario is non-blocking: blocking paths inside them are pruned */
     if (who == 1 && b_pc == 0 && b_holds) {             /* B: unlock */
         as_agent(AGENT_B); holders--; b_holds = 0; b_pc = 1;
         int r = UNLOCKFN((ABT_mutex)&M); __CPROVER_assert(r == ABT_SUCCESS, "unlock succeeds");
@@ -44,6 +45,7 @@ static void env_step(void)
         as_agent(2); holders--; c_holds = 0; c_pc = 2;
         int r = ABT_mutex_unlock((ABT_mutex)&M); __CPROVER_assert(r == ABT_SUCCESS, "unlock succeeds");
     }
+    vr_env_noblock = 0;
 }
 static void vr_after_switch(int k) { world_wait_and_resume(k); }
 static void vr_stuck(const char *where)
